@@ -33,9 +33,11 @@
 (*    it may already hold (DetachIts);                                      *)
 (*  - MoveToPosition / PutAtPosition to a middle position always unlink    *)
 (*    and relink the entry, even if it already is at that position.        *)
-(* "Reordering operation" (the exemption of NoSkip / NoTwice): a call that *)
-(* unlinked and relinked an entry (mv) or changed the relative order of    *)
-(* the surviving entries.                                                  *)
+(* Reordering and NoSkip / NoTwice: an entry that a call relinks (mv) is    *)
+(* exempt as if it were a new entry; all other entries must still be       *)
+(* visited exactly once - also when the relinked entry is the one a cursor *)
+(* is on.  Calls that change the relative order of the OTHER entries (the  *)
+(* sorts) exempt the traversals they cross.                                *)
 (*                                                                         *)
 (* The property is at the bottom.                                          *)
 (***************************************************************************)
@@ -181,7 +183,7 @@ MoveKinds == {"PutAtFront", "PutAtBack", "PutBefore", "PutBehind", "PutAtPositio
 NewOrd(op, a, b, w, r) ==
     IF Sorted = "none" THEN w.ord ELSE
     LET o == w.ord IN
-    CASE op \in {"SortSelf", "Clear", "AssignFrom"} -> [o EXCEPT !.loose = FALSE]
+    CASE op \in {"SortSelf", "Clear", "AssignFrom"} \/ (op = "Self" /\ a = 3) -> [o EXCEPT !.loose = FALSE]
       [] op = "Destroy" -> Ord0                                            \* a new table object
       [] op = "SetAutoSort" -> IF (a = 1) = o.auto THEN o ELSE [auto |-> (a = 1), loose |-> IF a = 1 /\ b = 1 THEN FALSE ELSE o.loose]
       [] op \in MoveKinds -> [o EXCEPT !.loose = @ \/ (r.mv /\ "moves_keep_tight" \notin Wrong)]
@@ -195,7 +197,7 @@ TableOps == {"Put", "PutPrev", "PutIfAbsent", "GetOrPut", "PutOrRemove", "PutAtF
              "GetAndMoveToFront", "GetAndMoveToBack", "Remove", "RemoveGet", "RemoveFirst", "RemoveLast",
              "MoveToFront", "MoveToBack", "MoveToBefore", "MoveToBehind", "MoveToPosition",
              "SortByKey", "SortByValue", "SortSelf", "Reposition", "Swap", "Clear", "Destroy", "AssignFrom", "AssignTo", "PutAll", "MoveToTable",
-             "RemoveAll", "Intersect", "EnsureSize", "ShrinkToFit", "SetAutoSort", "EnsureCanPut"}
+             "RemoveAll", "Intersect", "EnsureSize", "ShrinkToFit", "SetAutoSort", "EnsureCanPut", "CopyToTable", "Self"}
 QueryOps == {"Get", "IndexOfKey", "IndexOfValue", "GetKeyAt", "GetValueAt", "GetFirstKey", "GetLastKey", "GetKeyBefore", "GetKeyAfter",
              "ContainsValue", "NumItems", "IsEqualTo"}
 IterOps  == {"ItNew", "ItNewAt", "ItAdv", "ItRet", "ItFlip", "ItDel", "ItCopy"}
@@ -213,6 +215,8 @@ Args(op) ==
       [] op = "MoveToPosition" -> Keys \X Pos \X {0}
       [] op = "EnsureSize" -> ((0..(N0 + 1)) \cup Big) \X {0, 1} \X {0}
       [] op = "ShrinkToFit" -> ({0, 1} \cup Big) \X {0} \X {0}
+      [] op = "CopyToTable" -> Keys \X {0} \X {0}
+      [] op = "Self" -> ((0..5) \X {0, 1} \X {0}) \cup ({6} \X Keys \X {0})      \* the table is its own argument: 0 operator=, 1 SwapContents, 2 Put(table), 3 Remove(table), 4 Intersect, 5 IsEqualTo(ordering b), 6 MoveToTable(key b)
       [] op = "EnsureCanPut" -> ({0, 1, 2} \cup Big) \X {0} \X {0}
       [] op = "IndexOfValue" -> Vals \X {0, 1} \X {0}
       [] op \in {"GetKeyAt", "GetValueAt"} -> Pos \X {0} \X {0}
@@ -264,6 +268,14 @@ DoTable(w, op, a, b, c, W1, W2) ==
                           ELSE {WR(s, w.o, I, 1) : s \in SortedArrangements(PutAllSeq(t, w.o), W1)}
       [] op = "MoveToTable" -> IF ~Has(w, a) THEN Same(w, 0)
                                ELSE {LET r == RemoveK(t, p.its, 1, a) IN [WR(r.t, p.t, r.its, 1) EXCEPT !.mv = p.mv] : p \in PutSet(w.o, I, 2, a, Val(t, a), W2, TRUE)}
+      [] op = "CopyToTable" -> IF ~Has(w, a) THEN Same(w, 0)
+                               ELSE {[WR(t, p.t, p.its, 1) EXCEPT !.mv = p.mv] : p \in PutSet(w.o, I, 2, a, Val(t, a), W2, TRUE)}
+      \* documented: "trying to move an item into its own table will simply return B_NO_ERROR with no side effects"; Remove(table) removes every
+      \* key of the argument (here: all, the code clears the table); the others are the ordinary meaning of the call applied to equal operands
+      [] op = "Self" -> CASE a = 3 -> {WR(<<>>, w.o, DetachIts(I, 1, t), Len(t))}
+                          [] a = 6 -> Same(w, IF Has(w, b) THEN 1 ELSE 0)
+                          [] a \in {2, 5} -> Same(w, 1)
+                          [] OTHER -> Same(w, 0)
       [] op = "RemoveAll" -> {On1(w, RemoveSeq(t, I, 1, KeySeq(w.o), 0))}                                        \* tbl.Remove(oth): number removed
       [] op = "Intersect" -> {On1(w, RemoveSeq(t, I, 1, KeySeq(SelectSeq(t, LAMBDA e : e[1] \notin KeysOf(w.o))), 0))}
       \* pure capacity calls.  A huge request ends with B_NO_ERROR (allocation deferred), B_OUT_OF_MEMORY or B_RESOURCE_LIMIT - the header
@@ -318,16 +330,20 @@ DoIter(w, op, a, b, c) ==
 Normalize(I) == [i \in DOMAIN I |-> LET x == IF I[i].live /\ I[i].pos = 0 THEN [I[i] EXCEPT !.tab = 0] ELSE I[i]
                                     IN IF x.re THEN [x EXCEPT !.seen = {}, !.must = {}, !.fin = FALSE] ELSE x]
 
-\* ghost bookkeeping of a table call: entries that died leave seen / must; a reordering operation that took effect (an entry was
-\* unlinked and relinked - even to the place it had -, or the relative order of the survivors changed) marks the traversals it crosses
-GhostFix(w, r) ==
+\* ghost bookkeeping of a table call.  Entries that died leave seen / must.  An entry that the call itself relinked (mk: its key; a move is
+\* unlink + relink, also to the place it had) counts as a new entry from then on: it may be passed over or met again.  Every OTHER entry
+\* keeps its side of every cursor, so the promise stays strict for them - in particular when the moved entry is the one a cursor is on.
+\* Only a call that changes the relative order of the other entries (the sorts) exempts the traversals it crosses altogether.
+GhostFix(w, r, mk) ==
     IF ~GHOST THEN r.its ELSE
     [i \in DOMAIN r.its |-> LET old == w.its[i]  it == r.its[i] IN
         IF ~it.live THEN it
         ELSE IF it.tab = 0 THEN (IF old.tab = 0 THEN it ELSE [it EXCEPT !.must = {}, !.seen = {}])
-        ELSE LET ot == TabOf(w, old.tab)  nt == TabOf(r, it.tab)  gone == KeysOf(ot) \ KeysOf(nt) IN
+        ELSE LET ot == TabOf(w, old.tab)  nt == TabOf(r, it.tab)
+                 ex == "no_reorder_exemption" \notin Wrong
+                 gone == (KeysOf(ot) \ KeysOf(nt)) \cup (IF mk # 0 /\ ex THEN {mk} ELSE {}) IN
              [it EXCEPT !.must = @ \ gone, !.seen = @ \ gone,
-                        !.re = @ \/ ((r.mv \/ Reordered(ot, nt)) /\ "no_reorder_exemption" \notin Wrong)]]
+                        !.re = @ \/ (Reordered(Without(ot, mk), Without(nt, mk)) /\ ex)]]
 
 ------------------------------------------------------------------------------
 W0 == [t |-> tbl, o |-> oth, its |-> its, ord |-> ord]
@@ -342,7 +358,7 @@ Rec(op, a, b, c, r) == [op |-> op, a |-> a, b |-> b, c |-> c, res |-> r.res,
 
 \* all outcomes of a call on the current state, iterators normalised and ghosts updated
 Outcomes(op, a, b, c, W1, W2) ==
-    IF op \in TableOps THEN {[t |-> r.t, o |-> r.o, its |-> Normalize(GhostFix(W0, r)), res |-> r.res, mv |-> r.mv, ord |-> NewOrd(op, a, b, W0, r)] : r \in DoTable(W0, op, a, b, c, W1, W2)}
+    IF op \in TableOps THEN {[t |-> r.t, o |-> r.o, its |-> Normalize(GhostFix(W0, r, IF r.mv THEN a ELSE 0)), res |-> r.res, mv |-> r.mv, ord |-> NewOrd(op, a, b, W0, r)] : r \in DoTable(W0, op, a, b, c, W1, W2)}
     ELSE IF op \in QueryOps THEN {[WR(tbl, oth, its, DoQuery(W0, op, a, b, c)) EXCEPT !.mv = FALSE] @@ [ord |-> ord]}
     ELSE {WR(tbl, oth, Normalize(J), 0) @@ [ord |-> ord] : J \in DoIter(W0, op, a, b, c)}
 
@@ -393,6 +409,8 @@ aEnsureSize == TRUE /\ Call("EnsureSize")
 aShrinkToFit == TRUE /\ Call("ShrinkToFit")
 aSetAutoSort == TRUE /\ Call("SetAutoSort")
 aEnsureCanPut == TRUE /\ Call("EnsureCanPut")
+aCopyToTable == TRUE /\ Call("CopyToTable")
+aSelf == TRUE /\ Call("Self")
 aGet == TRUE /\ Call("Get")
 aIndexOfKey == TRUE /\ Call("IndexOfKey")
 aIndexOfValue == TRUE /\ Call("IndexOfValue")
@@ -416,7 +434,7 @@ aItCopy == TRUE /\ Call("ItCopy")
 Init == /\ tbl = <<>> /\ oth = <<>> /\ its = [i \in ItIds |-> NoIt] /\ last = [op |-> "Init"] /\ ord = Ord0
 Next == \/ aPut \/ aPutPrev \/ aPutIfAbsent \/ aGetOrPut \/ aPutOrRemove \/ aPutAtFront \/ aPutAtBack \/ aPutBefore \/ aPutBehind \/ aPutAtPosition \/ aGetAndMoveToFront \/ aGetAndMoveToBack
         \/ aRemove \/ aRemoveGet \/ aRemoveFirst \/ aRemoveLast \/ aMoveToFront \/ aMoveToBack \/ aMoveToBefore \/ aMoveToBehind \/ aMoveToPosition \/ aSortByKey \/ aSortByValue \/ aSortSelf \/ aReposition
-        \/ aSwap \/ aClear \/ aDestroy \/ aAssignFrom \/ aAssignTo \/ aPutAll \/ aMoveToTable \/ aRemoveAll \/ aIntersect \/ aEnsureSize \/ aShrinkToFit \/ aSetAutoSort \/ aEnsureCanPut
+        \/ aSwap \/ aClear \/ aDestroy \/ aAssignFrom \/ aAssignTo \/ aPutAll \/ aMoveToTable \/ aRemoveAll \/ aIntersect \/ aEnsureSize \/ aShrinkToFit \/ aSetAutoSort \/ aEnsureCanPut \/ aCopyToTable \/ aSelf
         \/ aGet \/ aIndexOfKey \/ aIndexOfValue \/ aGetKeyAt \/ aGetValueAt \/ aGetFirstKey \/ aGetLastKey \/ aGetKeyBefore \/ aGetKeyAfter \/ aContainsValue \/ aNumItems \/ aIsEqualTo
         \/ aItNew \/ aItNewAt \/ aItAdv \/ aItRet \/ aItFlip \/ aItDel \/ aItCopy
 Spec == Init /\ [][Next]_vars
